@@ -1,5 +1,5 @@
 (* C15 — taint writes are precise and never restart a node's grace period.  Theorems only. *)
-From Esc Require Import Examples proofs.ScanTheorems proofs.ScanChecks.
+From Esc Require Import Examples proofs.ScanTheorems proofs.ScanChecks proofs.ScanRun proofs.ScanRunTheorems.
 
 (* every node update of a scan is either the API server's copy with exactly one taint appended — key
    atlassian.com/escalator, value the scan's Unix second in decimal, the configured effect or NoSchedule — and that
@@ -42,3 +42,9 @@ Example c15_ex_add :
 Proof. vm_compute. reflexivity. Qed.
 Example c15_ex_swap : remove_swap [other_taint; esc_taint_at 5; force_taint; other_taint] = Some [other_taint; other_taint; force_taint].
 Proof. vm_compute. reflexivity. Qed.
+
+(* over a whole RunOnce: the checker evaluated by the correspondence holds of every group journal the model produces
+   (group names and cloud group names pairwise distinct) *)
+Theorem c15_run_once : forall s, wf_groups s -> for_groups check_C15_group s (run_journals s) = true.
+Proof. exact run_passes_C15. Qed.
+Print Assumptions c15_run_once.
